@@ -28,6 +28,8 @@ type World struct {
 	Lemmas    []*spec.Lemma
 	Events    []*spec.EventDecl
 	Reps      []*spec.Represents
+	TypeInvs  map[string]*spec.TypeInv // by type key of the pointer type ("*pkg.T")
+	typeInvAllocs map[string][]string  // type key -> keys of the functions that allocate the struct
 	funcByKey map[string]*ssa.Function
 	allFuncs  []*ssa.Function
 	immutable map[*ssa.Global]bool
@@ -225,6 +227,19 @@ func NewWorld(prog *load.Program, specDir string) (*World, error) {
 			w.Ghosts[g.Name] = g
 		}
 		w.Reps = append(w.Reps, f.Reps...)
+		for _, ti := range f.TypeInvs {
+			if w.TypeInvs == nil {
+				w.TypeInvs = map[string]*spec.TypeInv{}
+			}
+			impl := strings.TrimSuffix(strings.TrimPrefix(ti.Recv, "("), ")")
+			star := strings.HasPrefix(impl, "*")
+			impl = strings.TrimPrefix(impl, "*")
+			full := ti.Pkg + "." + impl
+			if star {
+				full = "*" + full
+			}
+			w.TypeInvs[full] = ti
+		}
 		w.Axioms = append(w.Axioms, f.Axioms...)
 		w.Lemmas = append(w.Lemmas, f.Lemmas...)
 		w.Events = append(w.Events, f.Events...)
@@ -309,8 +324,15 @@ func (w *World) resolveRef(f *spec.File, ref string) (string, error) {
 							}
 						}
 					}
-					for path, imp := range pk.Imports {
-						if imp.Name == q || path == q {
+					// two imported packages may share a name (engine.io/v2/webtransport and webtransport-go): the choice
+					// must not depend on map order; the lexically first path wins, the other one needs an import alias
+					var ipaths []string
+					for path := range pk.Imports {
+						ipaths = append(ipaths, path)
+					}
+					sort.Strings(ipaths)
+					for _, path := range ipaths {
+						if imp := pk.Imports[path]; imp.Name == q || path == q {
 							return path + "." + name[i+1:]
 						}
 					}
@@ -757,6 +779,9 @@ type Engine struct {
 	typeTags     map[string]int
 	typeTagTypes []types.Type
 	heapKeys     map[string]heapKey
+	x            *exec
+	typeInvUsed  map[string]bool
+	inTypeInv    bool
 	genCounter   int
 	obls         []*Obligation
 	unitName     string
